@@ -235,8 +235,9 @@ fn conv_level(rng: &mut Rng, o: &ConvOpts, name: String, depth_left: usize, inhe
         c.args[second].terminator = None;
         c.args[second].delim = None;
         // (the look-ahead that hands the last token to the final positional treats any dash-looking
-        // token as "a new argument", so negative-number values are outside this shape)
-        c.args[second].allow_negative = false;
+        // token as "a new argument", so a negative-number value for the *final* one is outside this shape)
+        // (values of the multi-valued one may be negative numbers: the look-ahead accepts those)
+        c.args[second].allow_negative = rng.chance(1, 3);
         c.args[last].allow_negative = false;
         c.args[last].action = Some(Act::Set);
         c.args[last].num_args = None;
@@ -479,8 +480,22 @@ pub fn gen_intent(rng: &mut Rng, c: &CmdSpec, io: &IntentOpts) -> LevelIntent {
     let mut at = 0;
     for k in 0..npos {
         let a = &c.args[poss[k]];
-        if a.last || (low_index && k + 2 >= poss.len()) {
+        if a.last {
             slots.push(Slot::P(poss[k]));
+            continue;
+        }
+        if low_index && k + 2 >= poss.len() {
+            // the pair stays adjacent; half of the time at the very end (where `--` may precede it),
+            // otherwise flags/options may follow the final positional
+            if k + 2 == poss.len() && rng.coin() {
+                at = rng.range(at, slots.len());
+                slots.insert(at, Slot::P(poss[k]));
+                at += 1;
+                slots.insert(at, Slot::P(poss[k + 1]));
+                at += 1;
+            } else if !slots.iter().any(|s| matches!(s, Slot::P(p) if *p == poss[k])) {
+                slots.push(Slot::P(poss[k]));
+            }
             continue;
         }
         at = rng.range(at, slots.len());
